@@ -108,7 +108,9 @@ def gen_scenario(rnd):
                 else:
                     ops.append(('idle', rnd.randint(1, 3)))
             elif kind == 'lifecycle':
-                if r < 0.3:
+                if r < 0.04:
+                    ops.append(('start-again',))        # refused (already started / stopped): and changes nothing
+                elif r < 0.3:
                     ops.append(('pause',))
                 elif r < 0.55:
                     ops.append(('unpause',))
@@ -273,6 +275,13 @@ def client_body(world, cname, ops, is_main, others_done, S):
                 call('stop')
                 r.stop()
                 ret('stop')
+            elif op[0] == 'start-again':
+                call('start-again')
+                try:
+                    r.start()
+                    ret('start-again', 'accepted')
+                except RuntimeError:
+                    ret('start-again', 'refused')
             elif op[0] == 'clock':
                 it.clock.time += op[1]
                 H.append(('clock-moved', op[1]))
@@ -355,6 +364,8 @@ def check_history(acc, scn, H, world, verdict, S, wit):
                 if n > 1:
                     return V('two-steps-in-one-cycle', 'two macro steps were executed in one cycle although execute_all is off')
     # (3) lifecycle ----------------------------------------------------------------------------------------
+    if any(h[0] == 'ret' and h[2] == 'start-again' and h[3] == 'accepted' for h in H):
+        return V('second-start-accepted', 'start() on a runner that had been started already did not raise')
     names = [h[1] for h in hooks]
     if names.count('before_run') > 1 or (names and names[0] != 'before_run'):
         return V('before-run', 'before_run called %d times / not first: %r' % (names.count('before_run'), names[:4]))
